@@ -376,6 +376,11 @@ func (c *keyCache) write(meta KeyMeta, e cacheEntry) {
 
 	if existing, ok := c.keys.Get(id); ok {
 		log.Debugf("%s update -> old: %s, new: %s, id: %s\n", c, existing.key, e.key, id)
+
+		if existing.key != e.key {
+			// the entry is being replaced by a different key object, release the cache's reference to the old one
+			existing.key.Close()
+		}
 	}
 
 	log.Debugf("%s write -> key: %s, id: %s\n", c, e.key, id)
